@@ -1,5 +1,6 @@
 #!/usr/bin/env python3
 """Unit registry: recipes for every extracted covfie function."""
+import re
 from recipe import Fn, Unit
 
 CORE = "lib/core/covfie/core/"
@@ -297,6 +298,76 @@ def make_array_own(name, consts):
     return Unit(name, fns, "contracts/array_own.h", "lemmas/array_own.c")
 
 
+# ---------------------------------------------------------------- one-line layers of C02
+SHUFFLE = CORE + "backend/transformer/shuffle.hpp"
+CAST = CORE + "backend/transformer/covariant_cast.hpp"
+DEREF = CORE + "backend/transformer/dereference.hpp"
+CONSTANT = CORE + "backend/primitive/constant.hpp"
+IDENTITY = CORE + "backend/primitive/identity.hpp"
+ARR_AT = (r"\b(\w+)\s*\.\s*at\s*\(\s*(\w+)\s*\)", r"\1.m_data[\2]", 0, True)
+
+
+def make_shuffle(name, consts, perm="0"):
+    pm = [int(x) for x in perm.split("_")]
+    n = len(pm)
+    fns = [Fn("shuffle_shuffle", SHUFFLE, ["struct shuffle", "struct non_owning_data_t"], "shuffle",
+              ret="IN_VEC_T", ptypes=["IN_VEC_T", None], vec_types=["IN_VEC_T"], method="const EMPTY_SELF_T *self",
+              subst=LAYER_SUBST, pack=("Is", pm, n, "IN_VEC_T"), subst_post=[ARR_AT], must={"R8_pack": 1}),
+           Fn("shuffle_at", SHUFFLE, ["struct shuffle", "struct non_owning_data_t"], "at",
+              ret="OUT_VEC_T", ptypes=["IN_VEC_T"], vec_types=["IN_VEC_T"], method="const EMPTY_SELF_T *self",
+              subst=LAYER_SUBST + [(r",\s*indices\s*\{\s*\}", "", 0, True), ("m_backend.at(", "backend_at(", 0), ("shuffle(", "shuffle_shuffle(self, ", 0)])]
+    return Unit(name, fns, "contracts/simple_layers.h", "lemmas/simple_layers.c", stubs=["stubs/backend.h"])
+
+
+def cast_index_count(n, m):
+    """K = length of the index sequence covariant_cast::at hands to at_helper, READ FROM THE CODE."""
+    import extract as X
+    loc = X.locate(CAST, ["struct covariant_cast", "struct non_owning_data_t"], "at")
+    mm = re.search(r"std::make_index_sequence\s*<\s*([A-Za-z_:\s]+?)\s*>", loc.body)
+    if not mm:
+        raise X.ExtractionError("covariant_cast::at: index sequence not found")
+    arg = "".join(mm.group(1).split())
+    if arg == "contravariant_input_t::dimensions":
+        return n
+    if arg == "covariant_output_t::dimensions":
+        return m
+    raise X.ExtractionError("covariant_cast::at: unknown index sequence length %r" % arg)
+
+
+def make_cast(name, consts, N="1", M="1"):
+    n, m = int(N), int(M)
+    k = cast_index_count(n, m)
+    fns = [Fn("cast_at_helper", CAST, ["struct covariant_cast", "struct non_owning_data_t"], "at_helper",
+              ret="CAST_VEC_T", ptypes=["IN_VEC_T", None], vec_types=["IN_VEC_T"], method="const EMPTY_SELF_T *self",
+              subst=LAYER_SUBST + [("target_type", "CAST_T", 1), ("m_backend.at(", "backend_at(", 0)],
+              call_index=["backend_at"], pack=("Is", list(range(k)), m, "CAST_VEC_T"), must={"R8_pack": 1}),
+           Fn("cast_at", CAST, ["struct covariant_cast", "struct non_owning_data_t"], "at",
+              ret="CAST_VEC_T", ptypes=["IN_VEC_T"], vec_types=["IN_VEC_T"], method="const EMPTY_SELF_T *self",
+              subst=LAYER_SUBST + [MKSEQ, ("at_helper(", "cast_at_helper(self, ", 0)])]
+    return Unit(name, fns, "contracts/simple_layers.h", "lemmas/simple_layers.c", stubs=["stubs/backend.h"])
+
+
+def make_deref(name, consts):
+    fns = [Fn("deref_at", DEREF, ["struct dereference", "struct non_owning_data_t"], "at",
+              ret="OUT_VEC_T", ptypes=["IN_VEC_T"], vec_types=["IN_VEC_T"], method="const EMPTY_SELF_T *self",
+              subst=LAYER_SUBST + [("m_backend.at(", "backend_at(", 0)])]
+    return Unit(name, fns, "contracts/simple_layers.h", "lemmas/simple_layers.c", stubs=["stubs/backend.h"])
+
+
+def make_constant(name, consts):
+    fns = [Fn("constant_at", CONSTANT, ["struct constant", "struct non_owning_data_t"], "at",
+              ret="OUT_VEC_T", ptypes=["IN_VEC_T"], vec_types=["IN_VEC_T"], method="const CONSTANT_SELF_T *self",
+              members=["m_value"], subst=LAYER_SUBST)]
+    return Unit(name, fns, "contracts/simple_layers.h", "lemmas/simple_layers.c", stubs=["stubs/backend.h"])
+
+
+def make_identity(name, consts):
+    fns = [Fn("identity_at", IDENTITY, ["struct identity", "struct non_owning_data_t"], "at",
+              ret="IDENT_VEC_T", ptypes=["IN_VEC_T"], vec_types=["IN_VEC_T", "IDENT_VEC_T"], method="const EMPTY_SELF_T *self",
+              subst=[("typename covariant_output_t::vector_t", "IDENT_VEC_T", 1)] + LAYER_SUBST)]
+    return Unit(name, fns, "contracts/simple_layers.h", "lemmas/simple_layers.c", stubs=["stubs/backend.h"])
+
+
 def get_unit(name, consts=None):
     """name is 'base' or 'base@k=v,k=v' for units whose extraction depends on template arguments."""
     if name in UNITS:
@@ -317,3 +388,8 @@ FACTORIES["nn"] = make_nn
 FACTORIES["binary_io"] = make_binio
 FACTORIES["array_io"] = make_array_io
 FACTORIES["array_own"] = make_array_own
+FACTORIES["shuffle"] = make_shuffle
+FACTORIES["cast"] = make_cast
+FACTORIES["deref"] = make_deref
+FACTORIES["constant"] = make_constant
+FACTORIES["identity"] = make_identity
